@@ -70,13 +70,16 @@ def check_fixture(ctx):
     check_exceptions(pr, fx)
     check_engagement(pr, fx)
     check_blocks(pr, fx, "fixture")
+    from rules import c02_index
+    for f_, text_, loc_, v_ in c02_index.sites(fx, only=lambda g: g["qname"].startswith("fixture::")):
+        (pr.fails if v_ == "inclusive" else pr.oks).append(("M6", f_["qname"] + ": " + text_))
     loops_ = {}
     for f in fx.functions:
         if C.first_party(f) and f["qname"].startswith("fixture::"):
             for h, body, latches in L.natural_loops(f):
                 loops_[f["name"]] = L.classify(f, h, body, latches)[0]
-    want_bad = [("E1", "bad_throw"), ("E1", "bad_regex_unfenced"), ("E2", "bad_optional"), ("E2b", "bad_variant"), ("M1", "bad_block_read")]
-    want_good = ["good_regex_fenced", "good_optional", "good_variant", "good_block_read"]
+    want_bad = [("E1", "bad_throw"), ("E1", "bad_regex_unfenced"), ("E2", "bad_optional"), ("E2b", "bad_variant"), ("M1", "bad_block_read"), ("M6", "bad_index_loop")]
+    want_good = ["good_regex_fenced", "good_optional", "good_variant", "good_block_read", "good_index_loop"]
     for rule, fn in want_bad:
         hit = any(r == rule and ("fixture::" + fn) in k for r, k in pr.fails)
         ctx.check("FX", "fixture: rule %s reports %s" % (rule, fn), hit, "reported", "not reported")
@@ -109,6 +112,8 @@ def run(ctx, tier):
     ctx.rule("M2", "copies into fixed-size stack arrays are bounded by the array size")
     ctx.rule("M4", "the UTF-8 length pre-computation and the UTF-8 writer agree on the code-point class boundaries")
     ctx.rule("M5", "NFD sizing and writing agree: the length counted for a precomposed Hangul syllable equals the number of jamo decompose() stores")
+    ctx.rule("M6", "a subscript v[i] whose index the dominating conditions bound against v.size() is bounded strictly (i < size): an "
+                   "inclusive bound reads one element past the end")
     ctx.rule("M3", "look-ahead reads x[i + k] (k >= 1) keep the dominating guard that bounds them")
     cfgs = ["release"] if tier == "quick" else ["release", "devchecks", "amalgamated", "avx512"]
     check_fixture(ctx)
@@ -129,6 +134,8 @@ def run(ctx, tier):
         check_parser_loop(ctx, fxs[name])
         check_loops(ctx, fxs[name], name)
         check_lookahead(ctx, fxs[name], name)
+        from rules import c02_index
+        c02_index.check(ctx, fxs[name], name, "M6")
         check_utf8_sizing(ctx, fxs[name])
         check_decomposition_sizing(ctx, fxs[name])
     # a url_aggregator offset that is off by a few bytes is an out-of-range substr()/erase() (std::out_of_range escapes,
